@@ -1,6 +1,7 @@
 #!/usr/bin/env python3
 """Runs the C19 cases against the real extension module (built from /repo's working tree).
 usage: py_driver.py PKG_PARENT_DIR cases.jsonl results.jsonl"""
+import ast
 import json
 import sys
 
@@ -70,8 +71,10 @@ with open(sys.argv[2]) as f, open(sys.argv[3], "a") as out:
         c = json.loads(line)
         rec = {"i": c["i"], "tag": c["tag"], "case": c, "decode_ok": True}
         if c["entry"] == "apply":
-            value = json.loads(c["value_json"])
-            data = json.loads(c["data_json"])
+            # Python objects that are not the image of a JSON text (non-string keys, tuples) are
+            # given as Python literals; what they JSON-encode to is decided by the standard encoder
+            value = ast.literal_eval(c["value_py"]) if "value_py" in c else json.loads(c["value_json"])
+            data = ast.literal_eval(c["data_py"]) if "data_py" in c else json.loads(c["data_json"])
             ser = SER[c["ser"]]
             dumps = ser if ser is not None else json.dumps
             kw = {}
